@@ -100,3 +100,43 @@ def stmts_under(node: ast.AST) -> Iterator[ast.stmt]:
     for x in walk_local(node):
         if isinstance(x, ast.stmt):
             yield x
+
+
+def branch_context(root: ast.AST, target: ast.AST) -> List[Tuple[ast.AST, bool]]:
+    """Enclosing `if`/`while` tests of `target` inside `root`, outermost first,
+    as (test expression, True if target is in the body / False if in orelse).
+    `elif` chains appear as nested Ifs in orelse, so an `elif` branch yields
+    (first_test, False), (second_test, True)."""
+    out: List[Tuple[ast.AST, bool]] = []
+
+    def rec(n, ctx) -> bool:
+        if n is target:
+            out.extend(ctx)
+            return True
+        if isinstance(n, (ast.If, ast.While)):
+            for ch in ast.iter_child_nodes(n.test):
+                pass
+            if contains(n.test, target):
+                out.extend(ctx)
+                return True
+            for ch in n.body:
+                if rec(ch, ctx + [(n.test, True)]):
+                    return True
+            for ch in n.orelse:
+                if rec(ch, ctx + [(n.test, False)]):
+                    return True
+            return False
+        if isinstance(n, ast.IfExp):
+            if rec(n.test, ctx):
+                return True
+            if rec(n.body, ctx + [(n.test, True)]):
+                return True
+            if rec(n.orelse, ctx + [(n.test, False)]):
+                return True
+            return False
+        for ch in ast.iter_child_nodes(n):
+            if rec(ch, ctx):
+                return True
+        return False
+    rec(root, [])
+    return out
